@@ -71,7 +71,15 @@ def project(go):
     return go
 
 
-def run_stream(ctx, stream, progs, check_parse=True, nontrivial=None, keep_lines=False):
+def node_lines(sx, tags):
+    """the line fields of the nodes with the given tags, in reading order of the S-expression: [(tag, line), …]"""
+    return re.findall(r'\((%s) (\d+)' % '|'.join(tags), sx)
+
+
+def run_stream(ctx, stream, progs, check_parse=True, nontrivial=None, keep_lines=False, check_lines=()):
+    """check_lines: node tags (e.g. ('member',)) whose LINE fields in Go's tree must equal those of the intended tree — only for
+    streams whose renderer keeps the generator's line bookkeeping exact for those nodes (the tree comparison itself ignores lines);
+    mismatches are collected in ctx.node_line_mismatches as (stream, case, go, expected), for the caller to report"""
     srcs, intended, inputs = [], [], []
     for p, ins in progs:
         s, sx = p.render(ctx.rng)
@@ -109,6 +117,15 @@ def run_stream(ctx, stream, progs, check_parse=True, nontrivial=None, keep_lines
             continue
         if check_parse and strip_lines(a[3:]) != strip_lines(intended[k]):
             ctx.violation(stream + ':parse-tree', case, strip_lines(a[3:])[:600], strip_lines(intended[k])[:600])
+        elif check_lines and node_lines(a[3:], check_lines) != node_lines(intended[k], check_lines):
+            # handed back to the caller (ctx.node_line_mismatches), which reports them AFTER its own judgement of the observables: the
+            # replay named first is then the wrong error location itself, not the tree field behind it
+            ctx.node_line_mismatches = getattr(ctx, 'node_line_mismatches', []) + [
+                (stream + ':node-line', case, 'lines ' + ' '.join('%s:%s' % x for x in node_lines(a[3:], check_lines)),
+                 'lines ' + ' '.join('%s:%s' % x for x in node_lines(intended[k], check_lines))
+                 + ' (0-based line of every %s node, as the generator laid the text out)' % '/'.join(check_lines))]
+        elif check_lines and node_lines(a[3:], check_lines):
+            ctx.count(stream + ':node-line-checked')
         if m == 'unmodelled':
             n_unmod += 1
         elif m in ('fuel',) and g.startswith('timeout'):
